@@ -26,6 +26,7 @@ Fixpoint usz (fuel : nat) (t : yty) : N :=
           | YBinTree vsz v => 9 + vsz + usz f v
           | YHashed t' => 1 + usz f t'
           | YRefRaw t' => usz f t'
+          | YNoLib t' => usz f t'
           | _ => 0
           end
   end.
@@ -43,7 +44,7 @@ Fixpoint yfits (fuel : nat) (t : yty) : bool :=
       | YHashmap _ _ v => yfits f v
       | YHashmapAug _ _ v e => yfits f v && yfits f e
       | YBinTree _ v => yfits f v
-      | YHashed t' | YRefRaw t' => yfits f t'
+      | YHashed t' | YRefRaw t' | YNoLib t' => yfits f t'
       | YNamed _ => false
       | _ => true
       end
@@ -143,19 +144,21 @@ Lemma dpost_leaf s st (r : res ys) :
 Proof. intros Hg Hs. apply ypost_lift; assumption. Qed.
 
 Theorem ydec_cost : forall fuel t, yfits fuel t = true ->
-  forall s st, thg (cell_of s) <= H -> dpost (usz fuel t) s st (ydec env hk fuel t s st).
+  forall s st, thg (cell_of s) <= H -> dpost (usz fuel t) s st (ydec env hk no_resolver fuel t s st).
 Proof.
   induction fuel as [ | f IH]; intros t Hfit s st Hs; [discriminate|].
-  cbn [ydec]. lazy zeta.
-  (* the tick and the library check *)
+  cbn [ydec]. lazy zeta. unfold no_resolver.
+  (* the tick and the library check (no resolver: a library cell is an error) *)
   assert (Hhead : forall u r, dpost u s (tickc st) r ->
             dpost (1 + u) s st (if is_lib (yk s) && negb (match t with YRawCell | YAny => true | _ => false end)
-                                then yerr ETlb (tickc st) else r)).
+                                then (if (match t with YNoLib _ => true | _ => false end) then yerr ETlb (tickc st)
+                                      else if negb (hk (cell_of s)) then yerr ETlb (tickc st) else yerr ETlb (tickc st))
+                                else r)).
   { intros u r Hr. unfold dpost. rewrite wt_add.
     pose proof (wt_ge 1 H (cell_of s) HH) as H1.
     eapply ypost_weaken with (b := wt u H (cell_of s) + 1) (P := fun s' => ysub s' s);
       [apply ypost_tick | lia | auto].
-    apply ypost_if; [apply ypost_err; discriminate | exact Hr]. }
+    apply ypost_if; [apply ypost_if; [|apply ypost_if]; apply ypost_err; discriminate | exact Hr]. }
   assert (Hbits : forall w st0, dpost 0 s st0 (doy (x, st1) <- ylift (ytake_bits w s) st0; yret (snd x) st1)).
   { intros w st0. unfold dpost.
     eapply ypost_weaken.
@@ -169,7 +172,7 @@ Proof.
             yfits f t' = true -> ysub s0 s -> ytake_ref s0 = Ok cr ->
             dpost (usz f t') s st0
               (match sub_slice (fst cr) chk with
-               | Some s2 => doy (_, st1) <- ydec env hk f t' s2 st0; yret (snd cr) st1
+               | Some s2 => doy (_, st1) <- ydec env hk no_resolver f t' s2 st0; yret (snd cr) st1
                | None => yret (snd cr) st0
                end)).
   { intros t' chk s0 cr st0 Hf Hs0 Hcr.
@@ -199,13 +202,13 @@ Proof.
       + intros a st' Ha. apply (Hk a st' Ha).
     - lia.
     - auto. }
-  assert (Hsubcall : forall t' s0 st0, yfits f t' = true -> ysub s0 s -> dpost (usz f t') s st0 (ydec env hk f t' s0 st0)).
+  assert (Hsubcall : forall t' s0 st0, yfits f t' = true -> ysub s0 s -> dpost (usz f t') s st0 (ydec env hk no_resolver f t' s0 st0)).
   { intros t' s0 st0 Hf Hs0. apply (dpost_sub _ s0 s _ _ Hs0).
     apply (IH t' Hf s0 st0). etransitivity; [apply (ysub_thg _ _ Hs0) | exact Hs]. }
   assert (Hthen_ref : forall t' chk (x : bits * ys) st0, yfits f t' = true -> ysub (snd x) s ->
             dpost (usz f t') s st0 (doy (cr, st1) <- ylift (ytake_ref (snd x)) st0;
                                    match sub_slice (fst cr) chk with
-                                   | Some s2 => doy (_, st2) <- ydec env hk f t' s2 st1; yret (snd cr) st2
+                                   | Some s2 => doy (_, st2) <- ydec env hk no_resolver f t' s2 st1; yret (snd cr) st2
                                    | None => yret (snd cr) st1
                                    end)).
   { intros t' chk x st0 Hf Hx. unfold dpost.
@@ -216,7 +219,7 @@ Proof.
     - lia.
     - auto. }
   cbn [usz yfits] in *.
-  destruct t; apply Hhead; try (apply Hbits).
+  destruct t; apply Hhead; unfold ybody; lazy zeta; try (apply Hbits).
   - (* YInt *) apply ypost_if; [apply ypost_err; discriminate | apply Hbits].
   - (* YVarUInt *)
     unfold dpost. eapply ypost_weaken.
@@ -263,7 +266,7 @@ Proof.
                 ((fix go (fs : list yty) (s : ys) (st : ct) : yres ys :=
                     match fs with
                     | [] => yret s st
-                    | t1 :: ft => doy (s1, st) <- ydec env hk f t1 s st; go ft s1 st
+                    | t1 :: ft => doy (s1, st) <- ydec env hk no_resolver f t1 s st; go ft s1 st
                     end) fs0 s0 st0)).
     { induction fs0 as [ | t1 ft IHf]; intros Hff s0 st0 Hs0.
       - apply ypost_ret. exact Hs0.
@@ -322,7 +325,7 @@ Proof.
   - (* YHashmap *)
     unfold dpost, hm_decode.
     eapply ypost_weaken.
-    + apply (hm_tree_cost (ydec env hk f t) None n vsz H (usz f t) 0 HH).
+    + apply (hm_tree_cost (ydec env hk no_resolver f t) None n vsz H (usz f t) 0 HH).
       * intros s0 st0 Hs0. apply (IH t Hfit s0 st0 Hs0).
       * intros e He. discriminate.
       * exact Hs.
@@ -332,7 +335,7 @@ Proof.
     apply andb_prop in Hfit. destruct Hfit as [Hf1 Hf2].
     unfold dpost, hm_decode.
     eapply ypost_weaken.
-    + apply (hm_tree_cost (ydec env hk f t1) (Some (ydec env hk f t2)) n vsz H (usz f t1) (usz f t2) HH).
+    + apply (hm_tree_cost (ydec env hk no_resolver f t1) (Some (ydec env hk no_resolver f t2)) n vsz H (usz f t1) (usz f t2) HH).
       * intros s0 st0 Hs0. apply (IH t1 Hf1 s0 st0 Hs0).
       * intros e He. inversion He; subst. intros s0 st0 Hs0. apply (IH t2 Hf2 s0 st0 Hs0).
       * exact Hs.
@@ -429,7 +432,7 @@ Proof.
           [apply ypost_chg | | auto].
         -- eapply ypost_weaken.
            ++ eapply ypost_bind with (b2 := 0) (Q := fun s' => ysub s' (mkys k (true :: b') refs)).
-              ** apply (bt_leaves_cost (ydec env hk f t) H (usz f t)).
+              ** apply (bt_leaves_cost (ydec env hk no_resolver f t) H (usz f t)).
                  --- intros s0 st0 Hs0. apply (IH t Hfit s0 st0 Hs0).
                  --- exact HFH.
               ** intros last st2 _.
@@ -472,5 +475,7 @@ Proof.
     apply ypost_if; [apply (IH t Hfit s _ Hs) | apply ypost_err; discriminate].
   - (* YRefRaw *)
     apply (Hthen_ref t false (@nil bool, s) (tickc st) Hfit (ysub_refl s)).
+  - (* YNoLib *)
+    apply (Hsubcall t s (tickc st) Hfit (ysub_refl s)).
 Qed.
 End Main.
